@@ -421,6 +421,7 @@ struct Printer {
     if (v.back() == '\\') return 0;
     int cand[3], n = 0;
     for (int i = 0; i < 3; i++) if (f.esc[i]) cand[n++] = f.esc[i];
+    if (!n) return 0;  // a format without quote characters: nothing can be quoted
     // prefer a quote character that does not occur in the value, otherwise escape the occurrences
     int start = (int)c.pick(n);
     for (int i = 0; i < n; i++) { int q = cand[(start + i) % n]; if (v.find((char)q) == std::string::npos) return q; }
